@@ -18,6 +18,7 @@ package main
 //   38 closeWithActiveReq = true | 39 `if p.activeClient == client { deleteActiveClient }`
 //   40 pool mutex Lock | 41 pool mutex Unlock | 45 `state word == GoAway => skip the rest` | 46 `if slot still holds this client { Delete }`
 //   47 the pool's client is added to the stream's listeners | 50 go-away word set | 51 state word := GoAway
+//   48 `if the connection is closed { reset the stream; give back once; ConnectionFailure }` (after the listener is added)
 
 import (
 	"fmt"
@@ -32,7 +33,7 @@ func init() { register("PoolDestroyMx", c09xGen) }
 
 var c09xStats = regexp.MustCompile(`^host\.(HostStats\(\)|ClusterInfo\(\)\.Stats\(\))\.Upstream(Connection(Total|Close|LocalClose|RemoteClose|ConFail|LocalCloseWithActiveRequest|RemoteCloseWithActiveRequest)|Request(Timeout|FailureEject|LocalReset|RemoteReset|Total|PendingOverflow))\.Inc\(1\)$`)
 
-var c09xSkip = regexp.MustCompile(`^(host := (p|ac\.pool|pool)\.Host\(\)|_ = variable\.Set\(ctx, types\.VariableUpstreamConnectionID, .*\)|atomic\.AddUint64\(&activeClient\.totalStream, 1\)|subProtocol := p\.connpool\.codec\.ProtocolName\(\)|activeClient := client\.\(\*activeClientMultiplex\))$`)
+var c09xSkip = regexp.MustCompile(`^(host := (p|ac\.pool|pool)\.Host\(\)|_ = variable\.Set\(ctx, types\.VariableUpstreamConnectionID, .*\)|atomic\.AddUint64\(&activeClient\.totalStream, 1\)|subProtocol := p\.connpool\.codec\.ProtocolName\(\)|activeClient := client\.\(\*activeClientMultiplex\)|verifMuxYield\(verifMuxSite(Tested|Placed), activeClient\)|end := &multiplexStreamEnd\{…\})$`)
 
 func c09xNorm(s string) string {
 	s = strings.ReplaceAll(s, "p.Host().", "host.")
@@ -314,7 +315,7 @@ func c09xGen() (string, error) {
 	const mxsrc = "pkg/stream/xprotocol/connpool_multiplex.go"
 	const h2src = "pkg/stream/http2/connpool.go"
 	var sb strings.Builder
-	sb.WriteString(header("PoolDestroyMx", mxsrc, h2src))
+	sb.WriteString(header("PoolDestroyMx", mxsrc, h2src, "pkg/stream/xprotocol/conn.go", "pkg/stream/http2/stream.go"))
 	emit := func(name, doc string, l []int) { sb.WriteString(c09wList(name, doc, l)) }
 	need := func(f *ast.File, recv, name string) (*ast.FuncDecl, error) {
 		fd := findFunc(f, recv, name)
@@ -338,8 +339,21 @@ func c09xGen() (string, error) {
 			"client, _ := p.activeClients[clientIdx].Load(subProtocol)":      {28},
 			"streamEncoder = activeClient.codecClient.NewStream(ctx, receiver)": {32},
 			"streamEncoder.GetStream().AddEventListener(activeClient)":       {47},
+			"streamEncoder.GetStream().AddEventListener(end)":                {47},
 		}
 		x.ifs = map[string]func(st *ast.IfStmt) ([]int, error){
+			"activeClient.host.Connection.State() == api.ConnClosed": func(st *ast.IfStmt) ([]int, error) {
+				// 48: the connection is found closed after the pool listens: the stream is ended here, once, and refused
+				if err := c09xOnceListener(f); err != nil {
+					return nil, err
+				}
+				if st.Else != nil || st.Init != nil || len(st.Body.List) != 3 ||
+					!strings.HasPrefix(c09xS(st.Body.List[0]), "streamEncoder.GetStream().ResetStream(types.Stream") ||
+					c09xS(st.Body.List[1]) != "end.OnDestroyStream()" || c09xS(st.Body.List[2]) != cf {
+					return nil, fmt.Errorf("NewStream: the closed-connection test after the listener has an unexpected shape")
+				}
+				return []int{48}, nil
+			},
 			"len(p.activeClients) > 1": func(st *ast.IfStmt) ([]int, error) {
 				var out []int
 				if err := c09xLooseSlot(st, &out); err != nil {
@@ -499,6 +513,11 @@ func c09xGen() (string, error) {
 			return "", err
 		}
 		sb.WriteString(fmt.Sprintf("/-- newActiveClient registers the pool's client as connection event listener before the codec client exists -/\ndef muxPoolHearsFirst : Bool := %v\n", lf))
+		vis, err := c09xPlaceVisible("pkg/stream/xprotocol/conn.go", "streamConn", "sc.clientStreams")
+		if err != nil {
+			return "", err
+		}
+		sb.WriteString(fmt.Sprintf("/-- xprotocol streamConn.NewStream puts the stream into the connection's stream table: a connection event can reset it before the pool listens -/\ndef muxPlaceVisible : Bool := %v\n", vis))
 	}
 
 	// ---------------- HTTP/2 pool
@@ -633,9 +652,60 @@ func c09xGen() (string, error) {
 			return "", err
 		}
 		sb.WriteString(fmt.Sprintf("/-- newActiveClient registers the pool's client as connection event listener before the codec client exists -/\ndef h2PoolHearsFirst : Bool := %v\n", lf))
+		vis, err := c09xPlaceVisible("pkg/stream/http2/stream.go", "clientStreamConnection", "conn.streams")
+		if err != nil {
+			return "", err
+		}
+		sb.WriteString(fmt.Sprintf("/-- http2 clientStreamConnection.NewStream puts the stream into the connection's stream table (it does not: the stream is entered when its headers are sent) -/\ndef h2PlaceVisible : Bool := %v\n", vis))
 	}
 	sb.WriteString(footer("PoolDestroyMx"))
 	return sb.String(), nil
+}
+
+// c09xOnceListener: multiplexStreamEnd passes OnResetStream on and OnDestroyStream on at most once (CAS on its done word).
+func c09xOnceListener(f *ast.File) error {
+	od := findFunc(f, "multiplexStreamEnd", "OnDestroyStream")
+	or := findFunc(f, "multiplexStreamEnd", "OnResetStream")
+	if od == nil || or == nil {
+		return fmt.Errorf("multiplexStreamEnd.OnDestroyStream / OnResetStream not found")
+	}
+	if len(or.Body.List) != 1 || c09xS(or.Body.List[0]) != "e.ac.OnResetStream(reason)" {
+		return fmt.Errorf("multiplexStreamEnd.OnResetStream does not just pass the reset on")
+	}
+	if len(od.Body.List) != 1 {
+		return fmt.Errorf("multiplexStreamEnd.OnDestroyStream has an unexpected shape")
+	}
+	is, ok := od.Body.List[0].(*ast.IfStmt)
+	if !ok || is.Init != nil || is.Else != nil || types.ExprString(is.Cond) != "atomic.CompareAndSwapUint32(&e.done, 0, 1)" ||
+		len(is.Body.List) != 1 || c09xS(is.Body.List[0]) != "e.ac.OnDestroyStream()" {
+		return fmt.Errorf("multiplexStreamEnd.OnDestroyStream is not `if CAS(&e.done, 0, 1) { e.ac.OnDestroyStream() }`")
+	}
+	return nil
+}
+
+// c09xPlaceVisible: does the NewStream of a client stream connection put the new stream into the connection's stream
+// table (so that a connection event can reset it before the caller holds it)?
+func c09xPlaceVisible(src, recv, table string) (bool, error) {
+	f, err := parse(src)
+	if err != nil {
+		return false, err
+	}
+	fd := findFunc(f, recv, "NewStream")
+	if fd == nil {
+		return false, fmt.Errorf("%s: %s.NewStream not found", src, recv)
+	}
+	vis := false
+	ast.Inspect(fd.Body, func(n ast.Node) bool {
+		if as, ok := n.(*ast.AssignStmt); ok {
+			for _, l := range as.Lhs {
+				if ix, ok := l.(*ast.IndexExpr); ok && types.ExprString(ix.X) == table {
+					vis = true
+				}
+			}
+		}
+		return true
+	})
+	return vis, nil
 }
 
 // c09xLooseSlot: the slot selection of the multiplex NewStream moves no conserved counter
